@@ -348,4 +348,303 @@ Section RunPeg.
     intros H lx ys st r HI Hc Hp. unfold pcount in Hp. destruct (pmap_some _ _ _ Hp) as (r0 & E & ->).
     unfold count_of. apply ag_map. exact (H lx ys st r0 HI Hc E).
   Qed.
+
+  (** * Leaves *)
+
+  Lemma seq_leaf es st : forall ks acc lx ys, Inv lx ys ->
+    ag (pseq ks acc (kept (c_filter lx) ys)) lx ys
+      ((fix go (ks : list kind) (acc : list val) (l : clexer) : R :=
+         match ks with
+         | [] => (ROk (VList acc) l, st)
+         | k :: r =>
+           lift (c_next l) st (fun '(o, l') =>
+           match o with
+           | Some t => if tok_eqb t (tk0 k) then go r (acc ++ [VTok t]) l'
+                       else (RErr (EUnexpected es (c_token_span l') (ExTok (tk0 k)) (Some t)), st)
+           | None => (RErr (EUnexpected es (c_token_span l') (ExTok (tk0 k)) None), st)
+           end)
+         end) ks acc lx) st.
+  Proof using Htab Ht.
+    induction ks as [|k r IH]; intros acc lx ys HI; cbn [pseq].
+    - apply ag_here. exact HI.
+    - destruct (kept (c_filter lx) ys) as [|x s] eqn:Ek.
+      + destruct (next_nil2 lx ys HI Ek) as (lx' & E & _). rewrite E. cbn [lift]. apply ag_err.
+      + destruct (next_cons2 lx ys x s HI Ek) as (lx' & ys' & E & HI' & Hf & Hr & Hk & Hre). rewrite E. cbn [lift].
+        destruct (tok_eqb (e_tok x) (tk0 k)); [|apply ag_err].
+        apply (ag_from _ lx ys lx' ys' _ st Hre Hf Hr). rewrite <- Hk, <- Hf. apply (IH _ lx' ys' HI').
+  Qed.
+
+  Lemma at_end_nothing lx ys : Inv lx ys -> c_at_end lx = true -> ys = [] /\ clean lx ys = true.
+  Proof using Htab Ht.
+    intros HI He. pose proof (at_end_stream m Htab t Ht lx ys HI He) as ->. split; [reflexivity|].
+    rewrite <- (at_end_clean m t lx HI). exact He.
+  Qed.
+
+  Lemma not_at_end2 lx ys x s : Inv lx ys -> kept (c_filter lx) ys = x :: s -> c_at_end lx = false.
+  Proof using Htab Ht.
+    intros HI Hk. destruct (c_at_end lx) eqn:E; [|reflexivity].
+    destruct (at_end_nothing lx ys HI E) as [-> _]. discriminate Hk.
+  Qed.
+
+  (** whether only filtered tokens remain: nothing is deliverable and the scan ends cleanly *)
+  Lemma only_filtered_spec lx ys : Inv lx ys ->
+    only_filtered_remain lx = Ok (match kept (c_filter lx) ys with [] => clean lx ys | _ :: _ => false end).
+  Proof using Htab Ht.
+    intros HI. unfold only_filtered_remain. destruct (kept (c_filter lx) ys) as [|x s] eqn:Ek.
+    - destruct (next_nil2 lx ys HI Ek) as (lx' & E & _ & _ & _ & _ & Hend). rewrite E. cbn [bind fst snd]. rewrite Hend. reflexivity.
+    - destruct (next_cons2 lx ys x s HI Ek) as (lx' & ys' & E & _). rewrite E. reflexivity.
+  Qed.
+
+  Lemma seqc_leaf cl es st : forall ks cnt lx ys, Inv lx ys -> clean lx ys = cl ->
+    ag (pseqc cl ks cnt (kept (c_filter lx) ys)) lx ys
+      ((fix go (ks : list kind) (cnt : nat) (l : clexer) : R :=
+         match ks with
+         | [] => (ROk (VNat cnt) l, st)
+         | k :: r =>
+           if c_at_end l then (ROk (VNat cnt) l, st)
+           else
+             lift (c_peek l) st (fun '(o, l') =>
+             match o with
+             | Some t => if tok_eqb t (tk0 k)
+                         then lift (c_next l') st (fun '(_, l'') => go r (S cnt) l'')
+                         else (ROk (VNat cnt) l', st)
+             | None =>
+               lift (only_filtered_remain l') st (fun b =>
+               if b then (ROk (VNat cnt) l', st) else (RErr (EUnrecognized es), st))
+             end)
+         end) ks cnt lx) st.
+  Proof using Htab Ht.
+    induction ks as [|k r IH]; intros cnt lx ys HI Hc; cbn [pseqc].
+    - apply ag_here. exact HI.
+    - destruct (kept (c_filter lx) ys) as [|x s] eqn:Ek.
+      + destruct (c_at_end lx) eqn:Eend.
+        * destruct (at_end_nothing lx ys HI Eend) as [-> Hcl]. rewrite Hcl in Hc. subst cl.
+          rewrite <- Ek. apply ag_here. exact HI.
+        * destruct (peek_nil2 lx ys HI Ek) as (l1 & ys1 & E & HI1 & Hf & Hr & Hk & Hre). rewrite E. cbn [lift].
+          rewrite (only_filtered_spec l1 ys1 HI1), Hf, Hk, (reach_clean t _ _ _ _ Hre), Hc. cbn [lift].
+          destruct cl; [|apply ag_err]. rewrite <- Hk. apply ag_ok; assumption.
+      + rewrite (not_at_end2 lx ys x s HI Ek).
+        destruct (peek_cons2 lx ys x s HI Ek) as (l1 & ys1 & E & HI1 & Hf & Hr & Hk & Hre). rewrite E. cbn [lift].
+        destruct (tok_eqb (e_tok x) (tk0 k)).
+        * assert (Hk1 : kept (c_filter l1) ys1 = x :: s) by (rewrite Hf; exact Hk).
+          destruct (next_cons2 l1 ys1 x s HI1 Hk1) as (l2 & ys2 & E2 & HI2 & Hf2 & Hr2 & Hk2 & Hre2). rewrite E2. cbn [lift].
+          apply (ag_from _ lx ys l2 ys2 _ st (reach_trans _ _ _ _ _ _ Hre Hre2)); [congruence|congruence|].
+          rewrite <- Hk2, <- Hf2. apply (IH _ l2 ys2 HI2).
+          rewrite (reach_clean t _ _ _ _ Hre2), (reach_clean t _ _ _ _ Hre). exact Hc.
+        * rewrite <- Hk. apply ag_ok; assumption.
+  Qed.
+
+  (** consume one token if [p] accepts it (one, pred) *)
+  Lemma tok_leaf (p : tok -> option val) (K : option tok * clexer -> R) lx ys st :
+    Inv lx ys ->
+    (forall tk l', K (Some tk, l') = match p tk with Some v => (ROk v l', st) | None => (fst (K (Some tk, l')), st) end
+                   /\ (p tk = None -> exists e, K (Some tk, l') = (RErr e, st))) ->
+    (forall l', exists e, K (None, l') = (RErr e, st)) ->
+    ag (p_tok p (kept (c_filter lx) ys)) lx ys (lift (c_next lx) st K) st.
+  Proof using Htab Ht.
+    intros HI Hs Hn. destruct (kept (c_filter lx) ys) as [|x s] eqn:Ek; cbn [p_tok].
+    - destruct (next_nil2 lx ys HI Ek) as (lx' & E & _). rewrite E. cbn [lift]. destruct (Hn lx') as [e ->]. apply ag_err.
+    - destruct (next_cons2 lx ys x s HI Ek) as (lx' & ys' & E & HI' & Hf & Hr & Hk & Hre). rewrite E. cbn [lift].
+      destruct (Hs (e_tok x) lx') as [H1 H2]. destruct (p (e_tok x)) as [v|].
+      + rewrite H1, <- Hk. apply ag_ok; assumption.
+      + destruct (H2 eq_refl) as [e ->]. apply ag_err.
+  Qed.
+
+  (** peek, decide, then consume (any, any_index) *)
+  Lemma any_leaf (p : tok -> option val) mkerr1 mkerr2 lx ys st : Inv lx ys ->
+    ag (p_tok p (kept (c_filter lx) ys)) lx ys
+      (lift (c_peek lx) st (fun '(o, lx') =>
+         match o with
+         | Some tk => match p tk with
+                      | Some v => lift (c_next lx') st (fun '(_, lx'') => (ROk v lx'', st))
+                      | None => (RErr (mkerr1 lx' tk), st)
+                      end
+         | None => (RErr (mkerr2 lx'), st)
+         end)) st.
+  Proof using Htab Ht.
+    intros HI. destruct (kept (c_filter lx) ys) as [|x s] eqn:Ek; cbn [p_tok].
+    - destruct (peek_nil2 lx ys HI Ek) as (l1 & ys1 & E & _). rewrite E. cbn [lift]. apply ag_err.
+    - destruct (peek_cons2 lx ys x s HI Ek) as (l1 & ys1 & E & HI1 & Hf & Hr & Hk & Hre). rewrite E. cbn [lift].
+      destruct (p (e_tok x)) as [v|]; [|apply ag_err].
+      assert (Hk1 : kept (c_filter l1) ys1 = x :: s) by (rewrite Hf; exact Hk).
+      destruct (next_cons2 l1 ys1 x s HI1 Hk1) as (l2 & ys2 & E2 & HI2 & Hf2 & Hr2 & Hk2 & Hre2). rewrite E2. cbn [lift].
+      apply (ag_from _ lx ys l1 ys1 _ st Hre Hf Hr). rewrite <- Hk2. apply ag_ok; assumption.
+  Qed.
+
+  (** * The interpreter meets the specification *)
+
+  Ltac fuel_or H R :=
+    destruct H as [H|H]; [destruct R as [[? ?|?| |] ?]; cbn in H; try discriminate H; apply ag_fuel|].
+
+  Lemma maybe_meets cl f a c : meets cl (peg2 cl a) (fun lx st => run f a lx (ctx_unrec c) st) ->
+    meets cl (fun s => pmaybe (peg2 cl a s) s) (fun lx st => run (S f) (GMaybe a) lx c st).
+  Proof.
+    intros Ha lx ys st r HI Hc Hp. cbn [run].
+    destruct (peg2 cl a (kept (c_filter lx) ys)) as [[v s1|]|] eqn:Ea; cbn [pmaybe] in Hp; [| |discriminate Hp];
+      injection Hp as <-; pose proof (Ha lx ys st _ HI Hc Ea) as H; fuel_or H (run f a lx (ctx_unrec c) st).
+    - destruct H as (lx' & ys' & E & HI' & Hf & Hr & Hk & Hre). rewrite E. rewrite <- Hk. apply ag_ok; assumption.
+    - destruct H as (e & E). rewrite E. apply ag_here. exact HI.
+  Qed.
+
+  (** the shape shared by implies / antecedent / consequent / cond_implies *)
+  Lemma ante_meets cl f a c (kp : val -> list entry -> option pres) (kr : val -> clexer -> store -> R) :
+    meets cl (fun s => pmaybe (peg2 cl a s) s) (fun lx st => run f (GMaybe a) lx c st) ->
+    (forall l lx ys lx1 ys1 st r, Inv lx ys -> clean lx ys = cl -> Inv lx1 ys1 -> c_filter lx1 = c_filter lx ->
+       c_rec lx1 = c_rec lx -> reach lx ys lx1 ys1 -> kp l (kept (c_filter lx) ys1) = Some r -> ag r lx ys (kr l lx1 st) st) ->
+    meets cl (fun s => pbind (pmaybe (peg2 cl a s) s) kp) (fun lx st => on_ok (run f (GMaybe a) lx c st) kr).
+  Proof.
+    intros Hm Hk lx ys st r HI Hc Hp.
+    destruct (pmaybe (peg2 cl a (kept (c_filter lx) ys)) (kept (c_filter lx) ys)) as [[v s1|]|] eqn:Em; cbn [pbind] in Hp; [| |discriminate Hp].
+    - apply (ag_on_ok _ r lx ys _ _ st (Hm lx ys st _ HI Hc Em)).
+      intros lx1 ys1 HI1 Hf Hr Hk1 Hre. rewrite <- Hk1 in Hp. exact (Hk v lx ys lx1 ys1 st r HI Hc HI1 Hf Hr Hre Hp).
+    - injection Hp as <-. apply (ag_on_ok _ PFail lx ys _ _ st (Hm lx ys st _ HI Hc Em)). reflexivity.
+  Qed.
+
+  Lemma here_later v lx ys lx1 ys1 st : Inv lx1 ys1 -> c_filter lx1 = c_filter lx -> c_rec lx1 = c_rec lx ->
+    reach lx ys lx1 ys1 -> ag (POk v (kept (c_filter lx) ys1)) lx ys (ROk v lx1, st) st.
+  Proof. intros. apply ag_ok; assumption. Qed.
+
+  Theorem run_peg2 : forall fuel g c cl, meets cl (peg2 cl g) (fun lx st => run fuel g lx c st).
+  Proof using Htab Ht.
+    induction fuel as [|f IH]; intros g c cl lx ys st r HI Hc Hp; [apply ag_fuel|].
+    assert (IHm : forall a c0, meets cl (fun s => pmaybe (peg2 cl a s) s) (fun lx st => run f (GMaybe a) lx c0 st)).
+    { intros a c0. exact (IH (GMaybe a) c0 cl). }
+    destruct g; cbn [peg2] in Hp; try discriminate Hp.
+    - (* empty *) injection Hp as <-. cbn [run]. apply ag_here. exact HI.
+    - (* one *) injection Hp as <-. cbn [run].
+      apply (tok_leaf (fun t0 => if tok_eqb t0 (tk0 k) then Some (VTok t0) else None) _ lx ys st HI).
+      + intros tk l'. destruct (tok_eqb tk (tk0 k)); split; try reflexivity; intros; try discriminate; eexists; reflexivity.
+      + intros l'. eexists. reflexivity.
+    - (* any *) destruct ks as [|k0 ks]; [discriminate Hp|]. injection Hp as <-. cbn [run].
+      pose proof (any_leaf (any_of (k0 :: ks) (fun i => VTok (tk0 (nth i (k0 :: ks) KA))))
+                    (fun l tk => EUnexpected (c_parse_span lx) (peeked_span l) (ExAny (map tk0 (k0 :: ks))) (Some tk))
+                    (fun l => EUnexpected (c_parse_span lx) (c_token_span l) (ExAny (map tk0 (k0 :: ks))) None)
+                    lx ys st HI) as H.
+      match goal with |- ag ?r _ _ ?o _ => match type of H with ag ?r' _ _ ?o' _ => replace o with o'; [exact H|] end end.
+      destruct (c_peek lx) as [[[tk|] l']| |]; cbn [lift]; try reflexivity. unfold any_of.
+      destruct (position (fun k => tok_eqb tk (tk0 k)) (k0 :: ks)); reflexivity.
+    - (* any_index *) destruct ks as [|k0 ks]; [discriminate Hp|]. injection Hp as <-. cbn [run].
+      pose proof (any_leaf (any_of (k0 :: ks) VNat)
+                    (fun l tk => EUnexpected (c_parse_span lx) (peeked_span l) (ExAny (map tk0 (k0 :: ks))) (Some tk))
+                    (fun l => EUnexpected (c_parse_span lx) (c_token_span l) (ExAny (map tk0 (k0 :: ks))) None)
+                    lx ys st HI) as H.
+      match goal with |- ag ?r _ _ ?o _ => match type of H with ag ?r' _ _ ?o' _ => replace o with o'; [exact H|] end end.
+      destruct (c_peek lx) as [[[tk|] l']| |]; cbn [lift]; try reflexivity. unfold any_of.
+      destruct (position (fun k => tok_eqb tk (tk0 k)) (k0 :: ks)); reflexivity.
+    - (* seq *) injection Hp as <-. cbn [run]. apply (seq_leaf (c_parse_span lx) st ks [] lx ys HI).
+    - (* seq_count *) injection Hp as <-. cbn [run]. apply (seqc_leaf cl (c_parse_span lx) st ks 0 lx ys HI Hc).
+    - (* pred *) injection Hp as <-. cbn [run].
+      apply (tok_leaf (fun t0 => if peval p t0 then Some (VTok t0) else None) _ lx ys st HI).
+      + intros tk l'. destruct (peval p tk); split; try reflexivity; intros; try discriminate; eexists; reflexivity.
+      + intros l'. eexists. reflexivity.
+    - (* end_of_text *) injection Hp as <-. cbn [run].
+      destruct (kept (c_filter lx) ys) as [|x s] eqn:Ek.
+      + destruct (c_at_end lx) eqn:Eend.
+        * destruct (at_end_nothing lx ys HI Eend) as [-> Hcl]. rewrite Hcl in Hc. subst cl. cbn [lift].
+          rewrite <- Ek. apply ag_here. exact HI.
+        * rewrite (only_filtered_spec lx ys HI), Ek, Hc. cbn [lift]. destruct cl.
+          -- rewrite <- Ek. apply ag_here. exact HI.
+          -- destruct (peek_nil2 lx ys HI Ek) as (l1 & ys1 & E & _). rewrite E. cbn [lift]. apply ag_err.
+      + rewrite (not_at_end2 lx ys x s HI Ek), (only_filtered_spec lx ys HI), Ek. cbn [lift].
+        destruct (peek_cons2 lx ys x s HI Ek) as (l1 & ys1 & E & _). rewrite E. cbn [lift]. apply ag_err.
+    - (* left *) cbn [run].
+      destruct (peg2 cl g1 (kept (c_filter lx) ys)) as [[l s1|]|] eqn:Ea; cbn [pbind] in Hp; [| |discriminate Hp].
+      + apply (ag_on_ok _ r lx ys _ _ st (IH g1 c cl lx ys st _ HI Hc Ea)).
+        intros lx1 ys1 HI1 Hf Hr Hk Hre. destruct (pmap_some _ _ _ Hp) as (rb & Eb & ->). apply ag_map.
+        rewrite <- Hk in Eb. exact (meets_later cl _ _ (IH g2 c cl) lx ys lx1 ys1 st rb Hc HI1 Hf Hr Hre Eb).
+      + injection Hp as <-. apply (ag_on_ok _ PFail lx ys _ _ st (IH g1 c cl lx ys st _ HI Hc Ea)). reflexivity.
+    - (* right *) cbn [run].
+      destruct (peg2 cl g1 (kept (c_filter lx) ys)) as [[l s1|]|] eqn:Ea; cbn [pbind] in Hp; [| |discriminate Hp].
+      + apply (ag_on_ok _ r lx ys _ _ st (IH g1 c cl lx ys st _ HI Hc Ea)).
+        intros lx1 ys1 HI1 Hf Hr Hk Hre. rewrite <- Hk in Hp.
+        exact (meets_later cl _ _ (IH g2 c cl) lx ys lx1 ys1 st r Hc HI1 Hf Hr Hre Hp).
+      + injection Hp as <-. apply (ag_on_ok _ PFail lx ys _ _ st (IH g1 c cl lx ys st _ HI Hc Ea)). reflexivity.
+    - (* both *) cbn [run].
+      destruct (peg2 cl g1 (kept (c_filter lx) ys)) as [[l s1|]|] eqn:Ea; cbn [pbind] in Hp; [| |discriminate Hp].
+      + apply (ag_on_ok _ r lx ys _ _ st (IH g1 c cl lx ys st _ HI Hc Ea)).
+        intros lx1 ys1 HI1 Hf Hr Hk Hre. destruct (pmap_some _ _ _ Hp) as (rb & Eb & ->). apply ag_map.
+        rewrite <- Hk in Eb. exact (meets_later cl _ _ (IH g2 c cl) lx ys lx1 ys1 st rb Hc HI1 Hf Hr Hre Eb).
+      + injection Hp as <-. apply (ag_on_ok _ PFail lx ys _ _ st (IH g1 c cl lx ys st _ HI Hc Ea)). reflexivity.
+    - (* center *) cbn [run].
+      destruct (peg2 cl g1 (kept (c_filter lx) ys)) as [[l s1|]|] eqn:Ea; cbn [pbind] in Hp; [| |discriminate Hp].
+      + apply (ag_on_ok _ r lx ys _ _ st (IH g1 c cl lx ys st _ HI Hc Ea)).
+        intros lx1 ys1 HI1 Hf Hr Hk Hre. rewrite <- Hk in Hp.
+        destruct (peg2 cl g2 (kept (c_filter lx) ys1)) as [[v s2|]|] eqn:Eb; cbn [pbind] in Hp; [| |discriminate Hp].
+        * apply (ag_on_ok _ r lx ys _ _ st (meets_later cl _ _ (IH g2 c cl) lx ys lx1 ys1 st _ Hc HI1 Hf Hr Hre Eb)).
+          intros lx2 ys2 HI2 Hf2 Hr2 Hk2 Hre2. destruct (pmap_some _ _ _ Hp) as (rc & Ec & ->). apply ag_map.
+          rewrite <- Hk2 in Ec. exact (meets_later cl _ _ (IH g3 c cl) lx ys lx2 ys2 st rc Hc HI2 Hf2 Hr2 Hre2 Ec).
+        * injection Hp as <-.
+          apply (ag_on_ok _ PFail lx ys _ _ st (meets_later cl _ _ (IH g2 c cl) lx ys lx1 ys1 st _ Hc HI1 Hf Hr Hre Eb)). reflexivity.
+      + injection Hp as <-. apply (ag_on_ok _ PFail lx ys _ _ st (IH g1 c cl lx ys st _ HI Hc Ea)). reflexivity.
+    - (* map *) cbn [run]. destruct (pmap_some _ _ _ Hp) as (ra & Ea & ->). apply ag_map. exact (IH g c cl lx ys st ra HI Hc Ea).
+    - (* discard *) cbn [run]. destruct (pmap_some _ _ _ Hp) as (ra & Ea & ->). apply ag_map. exact (IH g c cl lx ys st ra HI Hc Ea).
+    - (* sub *) cbn [run].
+      destruct (c_start_sublex_spec m Htab t Ht lx ys HI) as (lx1 & ys1 & E & HI1 & Hk1 & Hf & Hr). rewrite E. cbn [lift].
+      pose proof (sublex_reach m Htab t Ht lx ys lx1 ys1 HI E HI1) as Hre.
+      apply (meets_later cl _ _ (IH g c cl) lx ys lx1 ys1 st r Hc HI1 Hf Hr Hre). rewrite <- Hf, Hk1. exact Hp.
+    - (* either *) cbn [run].
+      destruct (peg2 cl g1 (kept (c_filter lx) ys)) as [[v s1|]|] eqn:Ea; [| |discriminate Hp].
+      + injection Hp as <-. pose proof (IH g1 c cl lx ys st _ HI Hc Ea) as H. fuel_or H (run f g1 lx c st).
+        destruct H as (lx' & ys' & E & HI' & Hf & Hr & Hk & Hre). rewrite E. rewrite <- Hk. apply ag_ok; assumption.
+      + pose proof (IH g1 c cl lx ys st _ HI Hc Ea) as H. fuel_or H (run f g1 lx c st).
+        destruct H as (e & E). rewrite E. exact (IH g2 c cl lx ys st r HI Hc Hp).
+    - (* maybe *) exact (maybe_meets cl f g c (IH g (ctx_unrec c) cl) lx ys st r HI Hc Hp).
+    - (* require_if *) cbn [run]. destruct b.
+      + unfold some_of. destruct (pmap_some _ _ _ Hp) as (ra & Ea & ->). apply ag_map. exact (IH g c cl lx ys st ra HI Hc Ea).
+      + exact (IHm g c lx ys st r HI Hc Hp).
+    - (* cond *) cbn [run]. destruct b.
+      + unfold some_of. destruct (pmap_some _ _ _ Hp) as (ra & Ea & ->). apply ag_map. exact (IH g c cl lx ys st ra HI Hc Ea).
+      + injection Hp as <-. apply ag_here. exact HI.
+    - (* implies *) cbn [run]. refine (ante_meets cl f g1 c _ _ (IHm g1 c) _ lx ys st r HI Hc Hp).
+      intros l lx0 ys0 lx1 ys1 st1 r1 HI0 Hc0 HI1 Hf Hr Hre Hr1.
+      destruct l; try (injection Hr1 as <-; apply here_later; assumption).
+      destruct (pmap_some _ _ _ Hr1) as (rb & Eb & ->). apply ag_map.
+      exact (meets_later cl _ _ (IH g2 c cl) lx0 ys0 lx1 ys1 st1 rb Hc0 HI1 Hf Hr Hre Eb).
+    - (* antecedent *) cbn [run]. refine (ante_meets cl f g1 c _ _ (IHm g1 c) _ lx ys st r HI Hc Hp).
+      intros l lx0 ys0 lx1 ys1 st1 r1 HI0 Hc0 HI1 Hf Hr Hre Hr1.
+      destruct l; try (injection Hr1 as <-; apply here_later; assumption).
+      destruct (pmap_some _ _ _ Hr1) as (rb & Eb & ->). apply ag_map.
+      exact (meets_later cl _ _ (IH g2 c cl) lx0 ys0 lx1 ys1 st1 rb Hc0 HI1 Hf Hr Hre Eb).
+    - (* consequent *) cbn [run]. refine (ante_meets cl f g1 c _ _ (IHm g1 c) _ lx ys st r HI Hc Hp).
+      intros l lx0 ys0 lx1 ys1 st1 r1 HI0 Hc0 HI1 Hf Hr Hre Hr1.
+      destruct l; try (injection Hr1 as <-; apply here_later; assumption).
+      destruct (pmap_some _ _ _ Hr1) as (rb & Eb & ->). apply ag_map.
+      exact (meets_later cl _ _ (IH g2 c cl) lx0 ys0 lx1 ys1 st1 rb Hc0 HI1 Hf Hr Hre Eb).
+    - (* cond_implies *) cbn [run]. refine (ante_meets cl f g1 c _ _ (IHm g1 c) _ lx ys st r HI Hc Hp).
+      intros l lx0 ys0 lx1 ys1 st1 r1 HI0 Hc0 HI1 Hf Hr Hre Hr1.
+      destruct l; try (injection Hr1 as <-; apply here_later; assumption).
+      destruct (vpeval p l).
+      + destruct (pmap_some _ _ _ Hr1) as (rb & Eb & ->). apply ag_map.
+        exact (meets_later cl _ _ (IH g2 c cl) lx0 ys0 lx1 ys1 st1 rb Hc0 HI1 Hf Hr Hre Eb).
+      + injection Hr1 as <-. apply here_later; assumption.
+    - (* raw *) cbn [run]. exact (IH g (ctx_raw c) cl lx ys st r HI Hc Hp).
+    - (* unrecoverable *) cbn [run]. exact (IH g (ctx_unrec c) cl lx ys st r HI Hc Hp).
+    - (* repeat *) cbn [run].
+      exact (intersperse_sound cl f lo hi g GEmpty c (IH GEmpty c cl) (IH g c cl) lx ys st r HI Hc Hp).
+    - (* repeat_count *) cbn [run].
+      exact (count_meets cl _ _ (intersperse_sound cl f lo hi g GEmpty c (IH GEmpty c cl) (IH g c cl)) lx ys st r HI Hc Hp).
+    - (* repeat_until *) cbn [run].
+      exact (intersperse_until_sound cl f lo hi g1 g2 GEmpty c (IH g1 c cl) (IH GEmpty c cl) (IH g2 c cl) lx ys st r HI Hc Hp).
+    - (* repeat_count_until *) cbn [run].
+      exact (count_meets cl _ _ (intersperse_until_sound cl f lo hi g1 g2 GEmpty c (IH g1 c cl) (IH GEmpty c cl) (IH g2 c cl)) lx ys st r HI Hc Hp).
+    - (* intersperse *) cbn [run].
+      exact (intersperse_sound cl f lo hi g1 g2 c (IH g2 c cl) (IH g1 c cl) lx ys st r HI Hc Hp).
+    - (* intersperse_count *) cbn [run].
+      exact (count_meets cl _ _ (intersperse_sound cl f lo hi g1 g2 c (IH g2 c cl) (IH g1 c cl)) lx ys st r HI Hc Hp).
+    - (* intersperse_until *) cbn [run].
+      exact (intersperse_until_sound cl f lo hi g1 g2 g3 c (IH g1 c cl) (IH g3 c cl) (IH g2 c cl) lx ys st r HI Hc Hp).
+    - (* intersperse_count_until *) cbn [run].
+      exact (count_meets cl _ _ (intersperse_until_sound cl f lo hi g1 g2 g3 c (IH g1 c cl) (IH g3 c cl) (IH g2 c cl)) lx ys st r HI Hc Hp).
+    - (* intersperse_default *) cbn [run].
+      exact (intersperse_sound cl f lo hi g (GOne k) c (IH (GOne k) c cl) (IH g c cl) lx ys st r HI Hc Hp).
+    - (* context push: only the error changes *) cbn [run].
+      pose proof (IH g (ctx_pushed c tag) cl lx ys st r HI Hc Hp) as H. fuel_or H (run f g lx (ctx_pushed c tag) st).
+      destruct r as [v s'|].
+      + destruct H as (lx' & ys' & E & H). rewrite E. right. exists lx', ys'. split; [reflexivity|exact H].
+      + destruct H as (e & E). rewrite E. apply ag_err.
+    - (* user failure *) injection Hp as <-. cbn [run].
+      destruct (c_peek_spec m Htab t Ht lx ys HI) as (lx' & ys' & E & _). rewrite E. cbn [lift]. apply ag_err.
+    - (* some_of *) cbn [run]. unfold some_of. destruct (pmap_some _ _ _ Hp) as (ra & Ea & ->). apply ag_map.
+      exact (IH g c cl lx ys st ra HI Hc Ea).
+  Qed.
 End RunPeg.
